@@ -68,14 +68,7 @@ theorem C04_overflow_iff (t : IntTy) (ht : t ∈ IntTy.all) (N D : Nat) (hN : 0 
 /-- Statement-level predicate: the exact scaled value `x·N/D` is an integer. -/
 def ExactInteger (N D : Nat) (x : Int) : Prop := (D : Int) ∣ x * N
 
-/-- Full-strength truncation clause of C04 (kept visible; FALSE on the code as it is, see
-`C04_truncate_counterexample`). -/
-def C04_truncate_iff_full : Prop :=
-  ∀ (t : IntTy), t ∈ IntTy.all → ∀ (N D : Nat), 0 < N → 0 < D → Nat.Coprime D N →
-    compiles t N D = true → ∀ x : Int, t.inRange x →
-      (wouldTruncate t N D x = true ↔ ¬ ExactInteger N D x)
-
-/-- Soundness direction holds without exclusion: whenever the checker says "no truncation" the exact
+/-- Soundness direction, no hypothesis at all: whenever the checker says "no truncation" the exact
 value is an integer. -/
 theorem C04_truncate_sound (t : IntTy) (N D : Nat) (x : Int)
     (h : wouldTruncate t N D x = false) : ExactInteger N D x := by
@@ -84,43 +77,49 @@ theorem C04_truncate_sound (t : IntTy) (N D : Nat) (x : Int)
   cases hcat : categorize N D with
   | intMul => rw [cat_intMul hcat]; exact Int.one_dvd _
   | intDiv => rw [hcat] at h; exact Int.dvd_mul_of_dvd_left (truncChecker_sound t D x h)
-  | rational => rw [hcat] at h; exact Int.dvd_mul_of_dvd_left (truncChecker_sound t D x h)
+  | rational => rw [hcat] at h; exact Int.dvd_mul_of_dvd_left (truncChecker_sound t.promote D x h)
 
-/-- The iff, outside the single excluded point `x = -D` (reachable only as `x = min(T)`,
-`D = 2^(bits-1)`: finding F8). -/
-theorem C04_truncate_iff_partial (t : IntTy) (ht : t ∈ IntTy.all) (N D : Nat)
-    (hcop : Nat.Coprime D N) (x : Int) (hx : t.inRange x) (hex : x ≠ -(D : Int)) :
+/-- **C04, truncation clause (full strength).**  For every integral rep, every coprime `N/D` for
+which the conversion compiles and every value, `will_conversion_truncate` is true exactly when
+`x·N/D` is not an integer.  (Before the `fix:` commit for finding F8 this was false at
+`int8_t`, x = −128, 3/128; the model follows the fixed code, which checks in the promoted type.) -/
+theorem C04_truncate_iff (t : IntTy) (N D : Nat) (hcop : Nat.Coprime D N)
+    (hc : compiles t N D = true) (x : Int) :
     wouldTruncate t N D x = true ↔ ¬ ExactInteger N D x := by
-  constructor
-  · intro h
-    unfold ExactInteger
-    rw [dvd_mul_coprime D N x hcop]
-    unfold wouldTruncate at h
-    cases hcat : categorize N D with
-    | intMul => rw [hcat] at h; cases h
-    | intDiv => rw [hcat] at h; exact truncChecker_complete t ht D x hx hex h
-    | rational => rw [hcat] at h; exact truncChecker_complete t ht D x hx hex h
-  · intro h
-    cases hw : wouldTruncate t N D x with
-    | true => rfl
-    | false => exact absurd (C04_truncate_sound t N D x hw) h
+  unfold ExactInteger
+  rw [dvd_mul_coprime D N x hcop]
+  unfold wouldTruncate
+  unfold compiles at hc
+  cases hcat : categorize N D with
+  | intMul =>
+    rw [cat_intMul hcat]
+    simp [Int.one_dvd]
+  | intDiv =>
+    rw [hcat] at hc
+    simp only []
+    rw [gvInt_of_le t D ((gvInt_isSome _ _).1 hc)]
+    simp only [truncationChecker, decide_eq_true_eq]
+    exact tmod_ne_zero_iff x D
+  | rational =>
+    rw [hcat] at hc
+    simp only [Bool.and_eq_true] at hc
+    simp only []
+    rw [gvInt_of_le t.promote D ((gvInt_isSome _ _).1 hc.2)]
+    simp only [truncationChecker, decide_eq_true_eq]
+    exact tmod_ne_zero_iff x D
 
-/-- F8: the full iff fails on the code as written: `int8_t`, x = −128, factor 3/128. -/
-theorem C04_truncate_counterexample : ¬ C04_truncate_iff_full := by
-  intro h
-  have := h i8 (by decide) 3 128 (by decide) (by decide) (by decide) (by decide) (-128) (by decide)
-  have h1 : wouldTruncate i8 3 128 (-128) = true := by decide
-  have h2 : ExactInteger 3 128 (-128) := ⟨-3, by decide⟩
-  exact (this.1 h1) h2
+/-- Regression guard for F8: the formerly failing point is now classified correctly. -/
+theorem C04_F8_fixed : wouldTruncate i8 3 128 (-128) = false ∧ wouldTruncate i16 5 32768 (-32768) = false := by
+  decide
 
 theorem C04_lossy_eq_or (t : IntTy) (N D : Nat) (x : Int) :
     isLossy t N D x = (wouldTruncate t N D x || wouldOverflow t N D x) := rfl
 
 /-- No false alarm: a conversion whose exact result is representable and computable is never
-reported lossy (outside the F8 point). -/
+reported lossy. -/
 theorem C04_no_false_alarm (t : IntTy) (ht : t ∈ IntTy.all) (N D : Nat) (hN : 0 < N) (hD : 0 < D)
     (hcop : Nat.Coprime D N) (hc : compiles t N D = true) (x : Int) (hx : t.inRange x)
-    (hex : x ≠ -(D : Int)) (hfit : ExactFits t N D x) (hint : ExactInteger N D x) :
+    (hfit : ExactFits t N D x) (hint : ExactInteger N D x) :
     isLossy t N D x = false := by
   unfold isLossy
   have h1 : wouldOverflow t N D x = false := by
@@ -130,7 +129,7 @@ theorem C04_no_false_alarm (t : IntTy) (ht : t ∈ IntTy.all) (N D : Nat) (hN : 
   have h2 : wouldTruncate t N D x = false := by
     cases h : wouldTruncate t N D x with
     | false => rfl
-    | true => exact absurd hint ((C04_truncate_iff_partial t ht N D hcop x hx hex).1 h)
+    | true => exact absurd hint ((C04_truncate_iff t N D hcop hc x).1 h)
   rw [h1, h2]; rfl
 
 /-- Non-vacuity: the hypotheses are met by a non-trivial instance (int16, 5/3, x = 6000). -/
